@@ -767,6 +767,11 @@ func (y yearSerializer) serialize(ctx context.Context, typ sql.Type, value inter
 		return nil, fmt.Errorf("expected int16, but got %T", convertedValue)
 	}
 
+	// The zero year (0000) is encoded as 0, all other years are encoded as an offset from 1900
+	if intValue == 0 {
+		return []byte{0}, nil
+	}
+
 	return []byte{byte(intValue - 1900)}, nil
 }
 
